@@ -1,18 +1,21 @@
-(* C04 — property theorems only.  Proofs are in C04/Proofs.v; models in C04/Model.v.
+(* C04 — property theorems only.  Proofs are in C04/Proofs.v, C04/DenoteProofs.v, C04/LinkC01.v; models in C04/Model.v, C04/Denote.v.
    run       = ImplModel: the recursive closure wiring of decision.rs / business_knowledge_model.rs / decision_service.rs
-   spec_step = Spec: the node semantics tabulated once per node along a topological order of the requirement graph
+   denote    = Spec (C04/Denote.v): what an element denotes, written without the closure body (second half of this file)
+   spec_step = the closure body tabulated once per node along a topological order of the requirement graph; it SHARES [body]
+               with run, so C04_refines .. C04_spec_fixpoint (for both values of `fixed`) say that the recursion scheme,
+               the fuel and the requesting path do not matter - not that the wiring is right
    eval      = ANY expression evaluator that uses its service call-back extensionally (teval, the evaluator of the
                correspondence check, is one: C04_teval_ext); fixed = true is the code after the fix: commits.
    topo_ok G order: `order` lists node ids, each after all its requirements (acyclicity); fuel >= |order| suffices.
    agree l a b: the input contexts a and b bind the names in l alike. *)
 From Coq Require Import List NArith ZArith Bool Arith.
-From DV Require Import C04.Model C04.Proofs.
+From DV Require Import C04.Model C04.Proofs C04.Denote C04.DenoteProofs.
 From DV Require C01.Syntax C01.Spec C01.Impl.
 From DV Require Import C04.LinkC01.
 Import ListNotations.
 
-Definition extensional (eval : (N -> env -> value) -> env -> expr -> value) : Prop :=
-  forall s1 s2 sc e, (forall i x, s1 i x = s2 i x) -> eval s1 sc e = eval s2 sc e.
+(* extensional eval, reads_by_lookup eval: the two assumptions on an abstract evaluator, defined in C04/Denote.v:
+   it uses its service call-back extensionally; it reads its scope by look-up only (env_eq a b: every name is bound alike in a and b) *)
 
 (* recursive evaluation = topological evaluation on acyclic graphs, for every node kind, input context and sufficient fuel *)
 Theorem C04_refines : forall eval, extensional eval -> forall fixed G order id f k inp out,
@@ -159,6 +162,118 @@ Theorem C04_teval_feel_corners :
 Proof. exact (conj str_concat_agrees (conj dup_params_agree (conj rounding_agrees negative_zero_agrees))). Qed.
 
 
+(* ====================================================================================================================
+   The independent Spec (C04/Denote.v; after the audit: "run and spec_step both call the same body").
+   denote eval G id inp: a VALUE, by recursion over the acyclic graph (fuel = number of nodes + 1), defined without body / run /
+   zip / overwrite / inputs_into.  The environment of a logic is a priority list read by lookup (first binding wins):
+   supplied entries named like a required decision or knowledge function; required decisions bound to what they denote;
+   required services and knowledge models (transitively) as function values; required inputs bound to the supplied value.
+   ==================================================================================================================== *)
+
+(* THE theorem: for every acyclic graph, every element, every input context and every sufficient fuel, the recursive closures
+   (fixed = true: the code after the fix: commits) compute the denotation.  Over ANY evaluator that uses its service call-back
+   extensionally and its scope by look-up. *)
+Theorem C04_impl_is_denotation : forall eval, extensional eval -> reads_by_lookup eval -> forall G order id f inp,
+  topo_ok G order = true -> In id order -> length order <= f ->
+  impl_invoke eval true G f id inp = denote eval G id inp.
+Proof. exact impl_is_denotation. Qed.
+
+(* the semantic equation of a decision: the value of its logic in the environment of what its requirements denote, the call-back
+   invoking what the callable services denote (dec_scope, callback, denote_svc = svc_sem over denote_dec: C04/Denote.v) *)
+Theorem C04_denote_decision : forall eval, extensional eval -> reads_by_lookup eval ->
+  forall G order id name logic rk rd ri callable inp, topo_ok G order = true -> In id order ->
+  find id G = Some (NDec name logic rk rd ri callable) ->
+  denote eval G id inp =
+  eval (callback (denote_svc eval G) callable)
+       (dec_scope G (know_dec (dfuel G) G rk) (denote_dec eval G) rd ri inp) logic.
+Proof. exact denote_decision. Qed.
+(* ... read name by name: who wins (lookup in the priority list), stated without any evaluator *)
+Theorem C04_denote_scope : forall G kb dv rd ri inp n,
+  let bound := rev (req_decisions G dv rd inp) ++ rev kb in
+  lookup n (dec_scope G kb dv rd ri inp) =
+  match lookup n bound with
+  | Some v => Some (match lookup n inp with Some v' => v' | None => v end)
+  | None => if mem n (input_names G ri) then Some (input_value n inp) else None
+  end.
+Proof. exact dec_scope_lookup. Qed.
+(* the fuel of the denotation is irrelevant beyond the number of nodes *)
+Theorem C04_denote_fuel_irrelevant : forall eval, extensional eval -> reads_by_lookup eval -> forall G order id inp g,
+  topo_ok G order = true -> In id order -> length G <= g ->
+  dval eval G (dfuel G) g id inp = denote_dec eval G id inp.
+Proof. exact denote_fuel_irrelevant. Qed.
+(* second sentence of the property, for the Spec: input entries outside the requirement closure do not influence what an element denotes *)
+Theorem C04_denote_irrelevant_inputs : forall eval, extensional eval -> reads_by_lookup eval -> forall G order id inp1 inp2,
+  topo_ok G order = true -> In id order ->
+  agree (closure_names G order id) inp1 inp2 -> denote eval G id inp1 = denote eval G id inp2.
+Proof. exact denote_irrelevant_inputs. Qed.
+
+(* the evaluator of the correspondence check meets both assumptions *)
+Theorem C04_teval_reads_by_lookup : reads_by_lookup teval.
+Proof. exact teval_ext_env. Qed.
+Theorem C04_impl_is_denotation_teval : forall G order id f inp, topo_ok G order = true -> In id order -> length order <= f ->
+  impl_invoke teval true G f id inp = denote teval G id inp.
+Proof. exact impl_is_denotation_teval. Qed.
+
+(* the pinned variant fixed = false (for which C04_refines holds verbatim) does NOT compute the denotation:
+   the witness of C04_knowledge_service_orig_refuted, under the hypotheses of C04_impl_is_denotation *)
+Theorem C04_orig_is_not_denotation :
+  topo_ok G_ks O_ks = true /\ In 5%N O_ks /\ (length O_ks <= 6)%nat /\
+  denote teval G_ks 5%N [(1%N, vnum 1)] = vnum 20 /\
+  impl_invoke teval true G_ks 6 5%N [(1%N, vnum 1)] = vnum 20 /\
+  impl_invoke teval false G_ks 6 5%N [(1%N, vnum 1)] = VNull.
+Proof. exact orig_is_not_denotation. Qed.
+
+Example C04_denote_nonvacuous :
+  denote teval G_ex 6%N [(1%N, vnum 2); (2%N, vnum 3)] = vnum 18 /\
+  denote teval G_ex 10%N [(1%N, vnum 2); (2%N, vnum 3); (3001%N, vnum 9)] =
+    VCtx [(2001%N, vnum 54); (2002%N, VCtx [(6%N, VNull); (4%N, vnum 36)])] /\
+  denote teval G_ex 9%N [(1%N, vnum 2); (3%N, vnum 7)] = VCtx [(6%N, VNull); (4%N, vnum 14)] /\
+  denote teval G_ex 8%N [(1001%N, vnum 4); (1002%N, vnum 5)] = vnum 25 /\
+  denote teval G_ex 4%N [(1%N, vnum 2); (2%N, vnum 3); (3%N, vnum 10)] = vnum 20.
+Proof. exact denote_nonvacuous. Qed.
+
+(* ====================================================================================================================
+   Fuel.  run answers `out` and tev answers null when their fuel is used up (values that look like results).  run_d / tev_d
+   (C04/Denote.v) take WHAT is answered at fuel 0 as a parameter; a result that does not depend on it is no artefact.
+   ==================================================================================================================== *)
+(* closures: with more fuel than nodes listed in the order the answer at exhaustion is never used (for both values of `fixed`) *)
+Theorem C04_run_fuel_sufficient : forall eval, extensional eval -> forall fixed G order id f k inp out dflt,
+  topo_ok G order = true -> In id order -> length order < f ->
+  run_d eval dflt fixed G f k id inp out = run eval fixed G f k id inp out.
+Proof. exact run_fuel_unreached. Qed.
+(* tiny evaluator: in a ranked scope (function values only under the names FN, the body under n calling only functions of level
+   below lv n, nesting depth of bodies <= dmax, parameters and context keys outside FN, no function name read as a variable)
+   fuel need e = edepth e + clevel e * dmax suffices: the answer at exhaustion is never used, more fuel changes nothing, the
+   value is first-order.  ranked, first_order, need are decided by evaluation. *)
+Theorem C04_tev_fuel_sufficient : forall FN lv dmax svc leaky f sc e, (forall i x, is_fun (svc i x) = false) ->
+  ranked FN lv dmax sc = true -> first_order FN e = true -> need FN lv dmax e <= f ->
+  (forall d, tev_d d leaky f svc sc e = tev leaky f svc sc e) /\
+  (forall f', f <= f' -> tev leaky f' svc sc e = tev leaky f svc sc e) /\
+  is_fun (fst (tev leaky f svc sc e)) = false.
+Proof. exact tev_fuel_sufficient. Qed.
+(* whole graphs: graph_fuel_ok lv dmax G (every logic and body first-order with need <= TFUEL = 60, bodies of depth <= dmax calling
+   lower levels only, parameters outside the function names of G) and first-order input values: what an element denotes does not
+   depend on the answer of the evaluator at exhaustion ... *)
+Theorem C04_graph_fuel_sufficient : forall lv dmax G, graph_fuel_ok lv dmax G = true -> forall d id inp,
+  first_order_env inp = true -> denote (teval_d d) G id inp = denote teval G id inp.
+Proof. exact graph_fuel_sufficient. Qed.
+(* ... and neither exhaustion answer (of the closures, of the evaluator) reaches the result of the ImplModel: this is the explicit
+   form of "fuel >= number of nodes, logic within 60 levels" under which C04_refines_teval / C04_impl_is_denotation_teval speak
+   of values and not of fuel artefacts *)
+Theorem C04_fuel_sufficient_all : forall G order id f inp lv dmax dflt_run dflt_tev,
+  topo_ok G order = true -> In id order -> length order < f ->
+  graph_fuel_ok lv dmax G = true -> first_order_env inp = true ->
+  invoke teval G (run_d teval dflt_run true G f) id inp = denote (teval_d dflt_tev) G id inp.
+Proof. exact fuel_sufficient_all. Qed.
+Example C04_graph_fuel_nonvacuous :
+  graph_fuel_ok (level_of [(8%N, 1)]) 4 G_ex = true /\ graph_fuel_ok (level_of [(4%N, 1)]) 4 G_ks = true /\
+  need (fn_name G_ex) (level_of [(8%N, 1)]) 4 (EInvoke 8%N [(1002%N, EVar 6%N); (1001%N, EVar 1%N)]) = 10 /\
+  graph_fuel_ok (level_of [(1%N, 5)]) 4 [(1%N, NBkm 1%N [10%N] (ECall 1%N [EVar 10%N]) [] [])] = false /\
+  auto_levels G_ex O_ex = [(8%N, 1); (7%N, 0)] /\ auto_dmax G_ex = 3 /\ graph_fuel_auto G_ex O_ex = true /\ graph_fuel_auto G_ks O_ks = true /\
+  graph_fuel_auto [(1%N, NBkm 1%N [10%N] (ECall 1%N [EVar 10%N]) [] [])] [1%N] = false.
+Proof. exact graph_fuel_nonvacuous. Qed.
+
+
 Print Assumptions C04_refines.
 Print Assumptions C04_invoke_refines.
 Print Assumptions C04_fuel_sufficient.
@@ -178,3 +293,17 @@ Print Assumptions C04_teval_is_feel_eval.
 Print Assumptions C04_tev_is_feel_eval.
 Print Assumptions C04_teval_is_feel_eval_nonvacuous.
 Print Assumptions C04_teval_feel_corners.
+Print Assumptions C04_impl_is_denotation.
+Print Assumptions C04_denote_decision.
+Print Assumptions C04_denote_scope.
+Print Assumptions C04_denote_fuel_irrelevant.
+Print Assumptions C04_denote_irrelevant_inputs.
+Print Assumptions C04_teval_reads_by_lookup.
+Print Assumptions C04_impl_is_denotation_teval.
+Print Assumptions C04_orig_is_not_denotation.
+Print Assumptions C04_denote_nonvacuous.
+Print Assumptions C04_run_fuel_sufficient.
+Print Assumptions C04_tev_fuel_sufficient.
+Print Assumptions C04_graph_fuel_sufficient.
+Print Assumptions C04_fuel_sufficient_all.
+Print Assumptions C04_graph_fuel_nonvacuous.
